@@ -1,2 +1,99 @@
-(* C40 — property theorems (being written). *)
-From HV Require Import Model.Keys Model.Tstate.
+(* C40 — Size-suffixed state keys bound the values they can hold.
+   Property theorems only; model: Model/Keys.v (keys/keys.go, state.Keys.Add), Model/Tstate.v
+   (the write-time check in TStateView.Insert); proofs: Proofs/Keys_proofs.v, Proofs/Tstate_proofs.v. *)
+From stdpp Require Import gmap.
+From Coq Require Import NArith ZArith.
+From HV Require Import Lib.Bytes Model.Keys Model.Tstate Proofs.Keys_proofs Proofs.Tstate_proofs.
+Local Open Scope N_scope.
+
+(* A key's declared chunk count is the big-endian number in its last two bytes. *)
+Theorem C40_max_chunks : forall (k : key) (c : N),
+  (max_chunks k = Some c <-> exists pre hi lo, k = pre ++ [hi; lo] /\ c = hi * 256 + lo)
+  /\ max_chunks (encode_chunks k c) = Some c.
+Proof. intros k c. split; [apply max_chunks_spec | apply max_chunks_encode_chunks]. Qed.
+Print Assumptions C40_max_chunks.
+
+(* The chunk count of a value: 0 for the empty value, len/64 + 1 otherwise, defined up to 65535. *)
+Theorem C40_num_chunks : forall (v : val) (n : N),
+  num_chunks v = Some n <->
+  (chunks_nonneg (blenZ v) <= 65535)%Z /\ n = Z.to_N (chunks_nonneg (blenZ v)).
+Proof. exact num_chunks_spec. Qed.
+Print Assumptions C40_num_chunks.
+
+(* A value can be written to a key only if its chunk count does not exceed the key's number. *)
+Theorem C40_verify_value_iff : forall (k : key) (v : val),
+  verify_value k v = true <->
+  exists n c, num_chunks v = Some n /\ max_chunks k = Some c /\ n <= c.
+Proof. exact verify_value_iff. Qed.
+Print Assumptions C40_verify_value_iff.
+
+(* A key encoded for a maximum size admits every value up to that size (and the encoding succeeds
+   whenever the size needs at most 65535 chunks). *)
+Theorem C40_encode_bound : forall (k : key) (n : Z), (0 <= n)%Z ->
+  (forall k', encode k n = Some k' -> forall v, (blenZ v <= n)%Z -> verify_value k' v = true)
+  /\ ((chunks_nonneg n <= 65535)%Z -> encode k n = Some (encode_chunks k (Z.to_N (chunks_nonneg n)))).
+Proof.
+  intros k n Hn. split.
+  - intros k' H. exact (encode_admits k n k' H Hn).
+  - apply encode_some. exact Hn.
+Qed.
+Print Assumptions C40_encode_bound.
+
+(* Keys shorter than two bytes are invalid everywhere they are declared or used. *)
+Theorem C40_short_keys_rejected : forall (k : key), (length k < 2)%nat ->
+  valid k = false /\ max_chunks k = None /\ decode_chunks k = None
+  /\ (forall m p, keys_add m k p = None)
+  /\ (forall ms mc, verify ms mc k = false)
+  /\ (forall v, verify_value k v = false)
+  /\ (forall s v, snd (insert s k v) <> None)
+  /\ (forall s v, reachable s -> pending s !! k <> Some (Some v))
+  /\ (forall decls m s, keys_add_all ∅ decls = Some m -> v_scope s = ScopeKeys m ->
+        get s k = inr EPerm /\ (forall v, insert s k v = (s, Some EPerm)) /\ remove s k = (s, Some EPerm)).
+Proof.
+  intros k Hk. split.
+  - destruct (valid k) eqn:E; [|reflexivity]. apply valid_spec in E. lia.
+  - split; [apply max_chunks_short; exact Hk|]. split; [apply max_chunks_short; exact Hk|].
+    split; [intros m p; apply keys_add_short; exact Hk|].
+    split; [intros ms mc; apply verify_short; exact Hk|].
+    split; [intros v; apply verify_value_short; exact Hk|].
+    split; [intros s v; apply insert_short_key; exact Hk|].
+    split; [intros s v Hr; apply short_key_never_written; [apply reachable_ok; exact Hr | exact Hk]|].
+    intros decls m s Hm Hsc. exact (short_key_denied decls m s k Hm Hsc Hk).
+Qed.
+Print Assumptions C40_short_keys_rejected.
+
+(* Insert succeeds only if the chunk bound holds; hence every value pending in a view satisfies the
+   bound of its key, after any history including rollbacks. *)
+Theorem C40_insert_chunk_bound : forall (s s' : view) (k : key) (v : val),
+  insert s k v = (s', None) ->
+  exists n c, num_chunks v = Some n /\ max_chunks k = Some c /\ n <= c.
+Proof. intros s s' k v. apply insert_chunk_bound. Qed.
+Print Assumptions C40_insert_chunk_bound.
+
+Theorem C40_view_values_bounded : forall (s : view) (k : key) (v : val), reachable s ->
+  pending s !! k = Some (Some v) -> verify_value k v = true.
+Proof. intros s k v Hr. apply pending_values_bounded. apply reachable_ok. exact Hr. Qed.
+Print Assumptions C40_view_values_bounded.
+
+(* with full permission the bound is also sufficient *)
+Theorem C40_insert_admits : forall (s : view) (k : key) (v : val),
+  v_scope s = ScopeAll -> verify_value k v = true -> snd (insert s k v) = None.
+Proof.
+  intros s k v Hsc Hv. apply insert_succeeds; unfold check; try rewrite Hsc; auto.
+Qed.
+Print Assumptions C40_insert_admits.
+
+(* ---- non-vacuity *)
+Example C40_examples :
+  max_chunks [107; 1; 2] = Some 258
+  /\ num_chunks (repeat 7 64) = Some 2 /\ num_chunks (repeat 7 63) = Some 1 /\ num_chunks [] = Some 0
+  /\ verify_value [107; 0; 1] (repeat 7 63) = true /\ verify_value [107; 0; 1] (repeat 7 64) = false
+  /\ encode [107] 63 = Some [107; 0; 1] /\ encode [107] (65535 * 64)%Z = None
+  /\ encode [107] (-6400)%Z = Some [107; 255; 157].
+Proof. vm_compute. repeat split; reflexivity. Qed.
+
+Example C40_insert_example :
+  let s := new_view ts_new ScopeAll ∅ in
+  snd (insert s [107; 0; 1] (repeat 7 63)) = None /\ snd (insert s [107; 0; 1] (repeat 7 64)) = Some EValue
+  /\ snd (insert s [107] []) = Some EValue.
+Proof. vm_compute. auto. Qed.
